@@ -87,7 +87,8 @@ def main():
         import checks
         from sim import runner
         required = {
-            ('grow', 'C02'): ['probe:map-promoted-from-loc_is_iloc', 'probe:growth-after-cache-materialised', 'fault:construct-duplicate', 'fault:growth-duplicate'],
+            ('grow', 'C02'): ['probe:map-promoted-from-loc_is_iloc', 'probe:growth-after-cache-materialised', 'fault:construct-duplicate', 'fault:growth-duplicate',
+                             'fault:construct-duplicate-after-dtype-conversion'],
             ('grow', 'C05'): ['probe:growth-after-cache-materialised', 'query-cache:cold', 'query-cache:warm', 'query:frame', 'query:series', 'fault:growth-non-tree-reentry'],
             ('grow', 'C09'): ['probe:valid-growth-after-failed-growth', 'probe:extend-from-pool-member', 'fault:caller-writes-to-retained-buffer',
                               'fault:growth-duplicate-columns-partial', 'fault:growth-pairs-iterable-fails', 'fault:growth-value-iterable-fails',
